@@ -191,6 +191,7 @@ func runDrop(f lib.Flags, res *lib.Result, drv *lib.Driver) {
 		return
 	}
 	var maxRecv time.Duration
+	slow := 0
 	for i, c := range cases {
 		obs := c.runCode(nil)
 		if obs.MaxRecv > maxRecv {
@@ -208,6 +209,13 @@ func runDrop(f lib.Flags, res *lib.Result, drv *lib.Driver) {
 		}
 		tie.Record(strings.Join(c.Moves, " "), nsent >= 2, c, ans[i], code)
 		c.monitor(mon, obs)
+		if obs.RecvBlock != "" || obs.Error != "" || strings.Contains(code, "timeout") {
+			slow++
+			if slow > 8 {
+				tie.Fail(fmt.Errorf("aborted after %d runs in which the goroutine did not respond within %s (last: %s)", slow, stepTimeout, code))
+				break
+			}
+		}
 	}
 	res.Extra["DropExcess_max_input_accept_latency_us"] = maxRecv.Microseconds()
 }
